@@ -4,6 +4,6 @@ CONSTANTS
   MaxRuleSeq = 2
   MaxLen = 6
   PoolCap = 5
-  Guard = TRUE
+  CapMode = "exact"
 INVARIANTS NoCrossCorruption PayloadIntact StillDecodable
 CHECK_DEADLOCK FALSE
